@@ -24,8 +24,10 @@ Section Mon.
 
   Definition ok (st : S) (tr : list tev) : Prop := run st tr <> None.
 
-  (* the monitor tolerates the connection ending unsuccessfully here *)
-  Definition errs_ok (st : S) : Prop := forall o, o <> OOk -> step st (TEnd o) <> None.
+  (* the monitor tolerates the connection ending unsuccessfully here (a panic is never an
+     acceptable end: no program ever produces it, see safe_sound) *)
+  Definition errs_ok (st : S) : Prop :=
+    forall o, o <> OOk -> o <> OErr KPanic -> step st (TEnd o) <> None.
 
   (* events the keep-alive loops produce on their own *)
   Definition internal (info : bool) (e : tev) : bool :=
